@@ -18,15 +18,17 @@ EXTENDS Dom, MetaCharset, TLC, Json, IOUtils
 Rec == ndJsonDeserialize(IOEnv.TRACE)
 Prop == IOEnv.PROP
 
-VARIABLES l, nodes, dead, skipping, mode, cur, metaId, metaIn
-vars == <<l, nodes, dead, skipping, mode, cur, metaId, metaIn>>
+VARIABLES l, nodes, dead, skipping, mode, cur, metaId, metaIn, ln
+vars == <<l, nodes, dead, skipping, mode, cur, metaId, metaIn, ln>>
+\* ln (C09): [cur: line given with the token being processed, fwd: line last forwarded through set_current_line,
+\*           tok: a token of the HTML tokenizer is being processed]
 \* cur: the token being processed by the tree builder ([k |-> "none"] outside a token);
 \* metaId / metaIn: HTML meta element created / inserted while processing it (C19)
 
 NoTok == [k |-> "none"]
 S_meta == <<109, 101, 116, 97>>
 Init == l = 1 /\ nodes = InitNodes /\ dead = {} /\ skipping = FALSE /\ mode = "doc"
-        /\ cur = NoTok /\ metaId = -1 /\ metaIn = FALSE
+        /\ cur = NoTok /\ metaId = -1 /\ metaIn = FALSE /\ ln = [cur |-> 1, fwd |-> 1, tok |-> FALSE]
 
 AttrRecs(a) == [i \in DOMAIN a |-> [ns |-> a[i].ns, prefix |-> a[i].prefix, local |-> a[i].local, v |-> a[i].v]]
 
@@ -92,7 +94,7 @@ Step(e) ==
     IF e.ev = "reset" THEN
         /\ nodes' = InitNodes /\ dead' = {} /\ skipping' = FALSE /\ mode' = e.cfg.mode
         /\ cur' = NoTok /\ metaId' = -1 /\ metaIn' = FALSE
-    ELSE IF skipping THEN UNCHANGED <<nodes, dead, skipping, mode, cur, metaId, metaIn>>
+    ELSE IF skipping /\ e.ev # "tree" THEN UNCHANGED <<nodes, dead, skipping, mode, cur, metaId, metaIn>>
     ELSE IF e.ev = "token" THEN
         /\ cur' = e.tok /\ metaId' = -1 /\ metaIn' = FALSE
         /\ UNCHANGED <<nodes, dead, skipping, mode>>
@@ -114,7 +116,9 @@ Step(e) ==
         /\ dead' = dead \cup ((0..(Len(nodes) - 1)) \ Kept(nodes, e.ids))
         /\ UNCHANGED <<nodes, skipping, mode, cur, metaId, metaIn>>
     ELSE IF e.ev = "tree" THEN
-        LET okC20 == e.panic # <<>> \/ (CanonNode(nodes, 0) = e.dom /\ e.parents_ok /\ LinksConsistent(nodes))
+        \* after a call outside the contract the abstract DOM is not meaningful (C20 is not judged on that case);
+        \* the clauses that only look at the delivered tree still are
+        LET okC20 == skipping \/ e.panic # <<>> \/ (CanonNode(nodes, 0) = e.dom /\ e.parents_ok /\ LinksConsistent(nodes))
             okC06 == e.panic # <<>> \/ mode # "doc" \/ Skeleton(e.dom)
             okC04 == e.panic = <<>> /\ e.neof = 1
             bad == (Judged("C20") /\ ~okC20) \/ (Judged("C06") /\ ~okC06) \/ (Judged("C04") /\ ~okC04) IN
@@ -132,9 +136,26 @@ Step(e) ==
                                   /\ e.k = "node" /\ e.child = metaId))
         /\ UNCHANGED <<dead, mode, cur>>
 
+\* C09, forwarding clause: the tree builder hands the sink the line number it received with the token, and does so
+\* before any other call it makes for that token (whenever the number differs from the one the sink has)
+SinkCalls == {"create_element", "create_comment", "create_pi", "append", "append_before_sibling", "append_based_on_parent_node",
+              "append_doctype", "remove_from_parent", "reparent_children", "add_attrs_if_missing", "parse_error"}
+LineStep(e) ==
+    IF e.ev = "reset" THEN ln' = [cur |-> 1, fwd |-> 1, tok |-> FALSE]
+    ELSE IF e.ev = "token" THEN ln' = IF e.line = 0 THEN ln ELSE [ln EXCEPT !.cur = e.line, !.tok = TRUE]
+    ELSE IF e.ev = "reply" THEN ln' = [ln EXCEPT !.tok = FALSE]
+    ELSE IF e.ev = "set_current_line" THEN
+        /\ ((Judged("C09") /\ ln.tok /\ e.line # ln.cur) => Reject(e, "C09"))
+        /\ ln' = [ln EXCEPT !.fwd = e.line]
+    ELSE IF e.ev \in SinkCalls /\ ln.tok THEN
+        /\ ((Judged("C09") /\ ln.fwd # ln.cur) => Reject(e, "C09"))
+        /\ UNCHANGED ln
+    ELSE UNCHANGED ln
+
 Next == /\ l <= Len(Rec)
         /\ l' = l + 1
         /\ Step(Rec[l])
+        /\ LineStep(Rec[l])
 
 Spec == Init /\ [][Next]_vars
 AllConsumed == \/ TLCGet("stats").diameter = Len(Rec) + 1
